@@ -118,9 +118,36 @@ pub fn check_chunking(r: &mut Report, frames: &[F], preface: bool, data: &[u8], 
     let mut bounds = vec![0];
     bounds.extend_from_slice(cuts);
     bounds.push(data.len());
+    for pre in 0..=prehistories().len() {
+        check_chunking_after(r, frames, preface, data, st_end, cuts, &bounds, pre);
+    }
+}
+/// connections an extractor may have seen before `reset()`: none of them may show in the next connection's fingerprint
+fn prehistories() -> &'static Vec<Vec<u8>> {
+    static P: std::sync::OnceLock<Vec<Vec<u8>>> = std::sync::OnceLock::new();
+    P.get_or_init(|| {
+        let full = stream_bytes(&[F::Settings(vec![(1, 4096), (3, 100)]), F::Wu(0, 777, false), F::Prio(5, true, 0, 9), F::Headers(1, "spam".into(), Framing::default())], true).0;
+        vec![
+            // complete frames but no SETTINGS: nothing was reported, everything was parsed
+            stream_bytes(&[F::Wu(0, 12345, false), F::Prio(3, false, 0, 200)], true).0,
+            stream_bytes(&[F::Headers(1, "spam".into(), Framing::default())], true).0,
+            // cut inside the SETTINGS frame header / inside its payload
+            full[..h2::PREFACE.len() + 5].to_vec(),
+            full[..h2::PREFACE.len() + 12].to_vec(),
+            // a whole connection that did yield a fingerprint
+            full,
+        ]
+    })
+}
+#[allow(clippy::too_many_arguments)]
+fn check_chunking_after(r: &mut Report, frames: &[F], preface: bool, data: &[u8], st_end: usize, cuts: &[usize], bounds: &[usize], pre: usize) {
     r.exec((bounds.len() - 1) as u64);
     let res = guarded(|| {
         let mut ex = huginn_net_http::Http2FingerprintExtractor::new();
+        if pre > 0 {
+            let _ = ex.add_bytes(&prehistories()[pre - 1]);
+            ex.reset();
+        }
         let mut outs = vec![];
         for w in bounds.windows(2) {
             if let Ok(Some(f)) = ex.add_bytes(&data[w[0]..w[1]]) {
@@ -132,7 +159,7 @@ pub fn check_chunking(r: &mut Report, frames: &[F], preface: bool, data: &[u8], 
     let (outs, kept) = match res {
         Ok(x) => x,
         Err(p) => {
-            r.dev("C17/panic", "panic", || json!({"kind": "chunking", "frames": frames, "preface": preface, "cuts": cuts, "detail": p}));
+            r.dev("C17/panic", "panic", || json!({"kind": "chunking", "frames": frames, "preface": preface, "cuts": cuts, "after_reset_of_prehistory": pre, "detail": p}));
             return;
         }
     };
@@ -157,7 +184,8 @@ pub fn check_chunking(r: &mut Report, frames: &[F], preface: bool, data: &[u8], 
         } else {
             "differs-from-one-shot-of-prefix"
         };
-        r.dev(format!("C17/chunking/{class}"), class, || json!({"kind": "chunking", "frames": frames, "preface": preface, "cuts": cuts, "expected": exp, "expected_on_chunk_ending_at": upto, "actual": outs}));
+        let class = if pre > 0 { format!("after-reset/{class}") } else { class.to_string() };
+        r.dev(format!("C17/chunking/{class}"), class.clone(), || json!({"kind": "chunking", "frames": frames, "preface": preface, "cuts": cuts, "after_reset_of_prehistory": pre, "expected": exp, "expected_on_chunk_ending_at": upto, "actual": outs}));
     }
 }
 
